@@ -4,6 +4,7 @@ import (
 	"context"
 	"database/sql"
 	"fmt"
+	"sync"
 
 	"github.com/Factom-Asset-Tokens/factom"
 	_ "github.com/mattn/go-sqlite3"
@@ -25,6 +26,7 @@ type Pegnetd struct {
 	LastAveragesData   map[fat2.PTicker][]uint64 // The last set of data used to create averages
 	LastAverages       map[fat2.PTicker]uint64   // Cache for averages when requested for the same height
 	LastAveragesHeight uint32                    // Height of the current cache
+	averagesLock       sync.Mutex                // The sync routine and API handlers share the cache above
 }
 
 func NewPegnetd(ctx context.Context, conf *viper.Viper) (*Pegnetd, error) {
